@@ -200,6 +200,10 @@ def run_case(acc, rnd, tier, case):
             if isinstance(r.last_error, ContractError):
                 acc.violation('C13:contract-error', 'always-true conditions raised %s' % type(r.last_error).__name__, dict(wit, step=k))
                 return
+            if type(r.last_error).__name__ == 'CodeEvaluationError':
+                # guards and conditions of the generated charts only call the probes and after()/idle(): nothing there may raise
+                acc.violation('C13:time-predicate-raised', 'step %d: %s' % (k, str(r.last_error)[:300].replace('\n', ' ')), dict(wit, step=k))
+                return
             break
         step = r.last_step
         last_time = it.time
